@@ -119,10 +119,48 @@ pub fn focus_strategy() -> BoxedStrategy<Vec<u8>> {
     .boxed()
 }
 
+/// A multi-step scenario around the pending slot of one full bucket, built by construction:
+/// fill the bucket (front disconnected), make a connected node pending, change the status of some
+/// stored nodes (towards / away from the incoming limit), optionally remove one, let the pending
+/// time-out elapse, touch the table.
+pub fn pending_scenario(focus: Vec<u8>) -> BoxedStrategy<Vec<TOp>> {
+    (
+        proptest::sample::select(focus),
+        any::<u32>(),
+        any::<u32>(),
+        any::<bool>(),
+        proptest::collection::vec((0u8..16, any::<bool>(), proptest::option::of(any::<bool>())), 0..4),
+        proptest::option::of(0u8..NPATTERNS),
+        proptest::option::of((0u8..NPATTERNS, any::<bool>(), any::<bool>())),
+        any::<bool>(),
+    )
+        .prop_map(|(bucket, conn, inc, pend_incoming, status_ops, remove, reinsert, expire)| {
+            let key = |pat: u8| KeyRef::Rel(RelKey { bucket, pat });
+            // front node (pattern 0) disconnected so that a pending slot can be taken
+            let mut v = vec![TOp::Fill { bucket, n: 16, conn: conn & !1, inc }];
+            v.push(TOp::InsertOrUpdate { key: key(16), value: 1, connected: true, incoming: pend_incoming });
+            for (pat, connected, direction) in status_ops {
+                v.push(TOp::UpdateStatus { key: key(pat), connected, direction });
+            }
+            if let Some(pat) = remove {
+                v.push(TOp::Remove { key: key(pat) });
+            }
+            if let Some((pat, connected, incoming)) = reinsert {
+                v.push(TOp::InsertOrUpdate { key: key(pat), value: 2, connected, incoming });
+            }
+            if expire {
+                v.push(TOp::ExpirePending { bucket });
+            }
+            v.push(TOp::Iter);
+            v
+        })
+        .boxed()
+}
+
 pub fn config_strategy() -> BoxedStrategy<TableConfig> {
     (
         any::<[u8; 32]>(),
-        prop_oneof![3 => Just(16u8), 2 => 0u8..=16],
+        prop_oneof![3 => Just(16u8), 3 => 1u8..=6, 2 => 0u8..=16],
         any::<bool>(),
     )
         .prop_map(|(local, max_incoming, pending_zero)| TableConfig { local, max_incoming, pending_zero })
